@@ -444,6 +444,61 @@ pub fn bursts(ctx: &Ctx) -> Report {
         for p in &parts {
             deliver(&msgs, &expect, p, rng, rep, &replay, ":long-burst");
         }
+        // the same burst followed at once by the end of the connection, with a reader that only then
+        // starts reading: everything had arrived, so everything is delivered
+        if i % 2 == 0 {
+            let all: Vec<u8> = msgs.concat();
+            let want = expect.len();
+            let rt = runtime(rng.next());
+            let (got, fin) = rt.block_on(async move {
+                let c = connect();
+                let mut ldap = c.ldap;
+                let mut server = c.server;
+                let client = tokio::spawn(async move {
+                    let mut st = match ldap.streaming_search("op=1", Scope::Subtree, "(a=b)", vec!["*"]).await {
+                        Ok(s) => s,
+                        Err(e) => return (0usize, format!("start failed: {}", e)),
+                    };
+                    tokio::time::sleep(std::time::Duration::from_millis(500)).await;
+                    let mut n = 0;
+                    loop {
+                        match world::watchdog(st.next()).await {
+                            Ok(Ok(Some(_))) => n += 1,
+                            Ok(Ok(None)) => break,
+                            Ok(Err(e)) => return (n, format!("next failed: {}", e)),
+                            Err(()) => return (n, "HUNG".into()),
+                        }
+                    }
+                    let r = st.finish().await;
+                    (n, format!("rc={} text={}", r.rc, r.text))
+                });
+                let _ = server.request().await;
+                server.send(&all);
+                server.eof();
+                let out = client.await.unwrap_or((0, "client died".into()));
+                let _ = world::watchdog(c.driver).await;
+                out
+            });
+            if got != want || !fin.starts_with("rc=0 text=done") {
+                rep.violation("C06:burst-followed-by-eof:arrived-messages-not-delivered", format!("{} messages and the final result arrived in one piece, then the connection ended; a reader starting afterwards got {} items, {}", want, got, fin), replay.clone());
+            }
+            rep.count("bursts_followed_by_eof_checked", 1);
+        }
+        // one message larger than a megabyte in front of ordinary ones, cut near its header
+        if i % 8 == 1 {
+            let big = 1_048_576 + rng.usize(3_000_000);
+            let plan: Vec<(Resp, Option<Vec<RespCtl>>)> = vec![
+                (Resp::Entry { dn: b"e=big".to_vec(), attrs: vec![(b"a".to_vec(), vec![vec![0x5a; big]])] }, None),
+                (Resp::Entry { dn: b"e=small".to_vec(), attrs: vec![] }, None),
+            ];
+            let mut hm: Vec<Vec<u8>> = plan.iter().map(|(r, c)| encode(rng, 1, r, c)).collect();
+            hm.push(ber::encode_min(&resp_node(1, &Resp::Done(Res::ok("done")), None)));
+            let he = expected_items(&plan);
+            for p in [Partition::Single, Partition::SplitAt(1 + rng.usize(8)), Partition::SplitAt(1 + rng.usize(8)), Partition::Fixed(8192), Partition::SplitAt(8000)] {
+                deliver(&hm, &he, &p, rng, rep, &replay, ":message-over-a-megabyte");
+            }
+            rep.max("max_message_bytes", big as u64);
+        }
         rep.max("max_messages_in_one_burst", count as u64);
         rep.max("max_total_bytes", total as u64);
         rep.count("messages_delivered", (msgs.len() * parts.len()) as u64);
